@@ -194,3 +194,9 @@ end
 		F, S, vhStr("17"),
 		F, S, vhStr("22")), "runtime-errors-name-the-failing-line")
 }
+
+// the message handler that runs for an error raised in a coroutine is the one
+// in force where the failing resume happens (see vhWrapAcrossCoroutines in c09.go)
+func VerifH_C11_handler_in_force_at_the_failing_resume() {
+	vhWrapAcrossCoroutines()
+}
